@@ -294,13 +294,16 @@ HasV(x) == x.hk \in {"sysv", "both"}
 HasG(x) == x.hk \in {"gnu", "both"}
 B2N(b) == IF b THEN 1 ELSE 0
 Ws(x) == x.cls \div 8
-\* user section indices (the name table is the last section)
-Ix(x) == [sym |-> 1, str |-> 2,
-          hash |-> IF HasV(x) THEN 3 ELSE -1,
-          gnu |-> IF HasG(x) THEN 3 + B2N(HasV(x)) ELSE -1,
-          dyn |-> 3 + B2N(HasV(x)) + B2N(HasG(x)),
-          copy |-> IF IsSplit(x) THEN 4 + B2N(HasV(x)) + B2N(HasG(x)) ELSE -1,
-          decoy |-> IF HasDecoy(x) THEN 4 + B2N(HasV(x)) + B2N(HasG(x)) + B2N(IsSplit(x)) ELSE -1]
+\* The user sections in file order (the name table is the last section).  Usually the symbol table comes first and the string
+\* table follows it; under the layouts with zero-fill memory the symbol table comes last of the tables, directly before
+\* .dynamic, so that no dynamic pointer marks its end (the "nearest higher pointer" guess of its size is wrong there).
+SymLast(x) == x.layout \in {"bss", "twobss"}
+Order(x) == (IF SymLast(x) THEN <<"str">> ELSE <<"sym", "str">>)
+            \o (IF HasV(x) THEN <<"hash">> ELSE <<>>) \o (IF HasG(x) THEN <<"gnu">> ELSE <<>>)
+            \o (IF SymLast(x) THEN <<"sym">> ELSE <<>>) \o <<"dyn">>
+            \o (IF IsSplit(x) THEN <<"copy">> ELSE <<>>) \o (IF HasDecoy(x) THEN <<"decoy">> ELSE <<>>)
+PosOf(ord, kind) == LET hits == {k \in 1..Len(ord) : ord[k] = kind} IN IF hits = {} THEN -1 ELSE Min(hits)
+Ix(x) == LET ord == Order(x) IN [kind \in {"sym", "str", "hash", "gnu", "dyn", "copy", "decoy"} |-> PosOf(ord, kind)]
 Mand(x) == (IF HasV(x) THEN <<TabTag("hash")>> ELSE <<>>) \o (IF HasG(x) THEN <<TabTag("gnuhash")>> ELSE <<>>)
            \o <<TabTag("strtab"), TabTag("symtab"), T("val", C1(10), FALSE, N(Len(DynStr))), T("val", C1(11), FALSE, N(SizeOf(SymF(x.cls), x.cls)))>>
 Body(x) == CASE x.mpos = "front" -> Mand(x) \o x.free
@@ -361,7 +364,7 @@ EncTags(x, P, ts) == CatAll([i \in 1..Len(ts) |-> Fix(W(TagDigits(x, ts[i])), Ws
 \* tables under the object's PT_LOAD layout.  Encode: the dynamic array with those addresses, the image.
 \* (Three actions rather than one: what an action stores in `mem` is a concrete value, whereas TLC re-evaluates a LET
 \* definition at every use inside a function constructor.)
-SecCount(x) == IF HasDecoy(x) THEN Ix(x).decoy ELSE Ix(x).dyn
+SecCount(x) == Len(Order(x))
 NLoad(x) == IF x.layout \in {"two", "twobss"} THEN 2 ELSE 1
 Build(so) ==
   /\ phase = "build"
@@ -381,8 +384,9 @@ Build(so) ==
 PlaceTables ==
   /\ phase = "built"
   /\ LET x == o   ix == Ix(o)   w == Ws(o)
-         lens == <<Len(mem.symb), Len(DynStr)>> \o (IF HasV(x) THEN <<Len(mem.hb)>> ELSE <<>>) \o (IF HasG(x) THEN <<Len(mem.gb)>> ELSE <<>>)
-                 \o <<mem.dynlen>> \o (IF IsSplit(x) THEN <<mem.dynlen>> ELSE <<>>) \o (IF HasDecoy(x) THEN <<Len(Decoy)>> ELSE <<>>)
+         ord == Order(o)
+         lens == [k \in 1..Len(ord) |-> CASE ord[k] = "sym" -> Len(mem.symb) [] ord[k] = "str" -> Len(DynStr) [] ord[k] = "hash" -> Len(mem.hb)
+                                           [] ord[k] = "gnu" -> Len(mem.gb) [] ord[k] \in {"dyn", "copy"} -> mem.dynlen [] ord[k] = "decoy" -> Len(Decoy)]
          \* where the data region starts (Elf.tla: after the ELF header and the program header table) and ends (after .shstrtab)
          hdr == [Im0 EXCEPT !.cls = x.cls, !.segs = [j \in 1..(NLoad(x) + 1) |-> Z]]
          d0 == DataOff(hdr)
@@ -393,22 +397,23 @@ PlaceTables ==
   /\ phase' = "placed"
   /\ UNCHANGED <<o, rd>>
 
-Sections(x, m, ad, dyn) ==
+SecOf(x, m, ad, dyn, kind) ==
   LET c == x.cls   w == Ws(x)   ix == Ix(x) IN
-  << Sec(DotDynsym, Sht("SHT_DYNSYM"), N(2), ad[ix.sym], m.symb, N(Len(m.symb)), N(ix.str), N(1), N(w), N(SymEnt(x))),
-     Sec(IF HasDecoy(x) THEN DotDstr ELSE DotDynstr, Sht("SHT_STRTAB"), N(2), ad[ix.str], DynStr, N(Len(DynStr)), Z, Z, N(1), Z) >>
-  \o (IF HasV(x) THEN << Sec(DotHash, Sht("SHT_HASH"), N(2), ad[ix.hash], m.hb, N(Len(m.hb)), N(ix.sym), Z, N(4), N(4)) >> ELSE <<>>)
-  \o (IF HasG(x) THEN << Sec(DotGnuHash, Sht("SHT_GNU_HASH"), N(2), ad[ix.gnu], m.gb, N(Len(m.gb)), N(ix.sym), Z, N(w), Z) >> ELSE <<>>)
-  \o << Sec(DotDynamic, Sht("SHT_DYNAMIC"), N(3), ad[ix.dyn], dyn, N(m.dynlen), N(ix.str), Z, N(w), N(DynEnt(c))) >>
-  \o (IF IsSplit(x) THEN << Sec(DotData, Sht("SHT_PROGBITS"), N(3), ad[ix.copy], dyn, N(m.dynlen), Z, Z, N(w), Z) >> ELSE <<>>)
-  \o (IF HasDecoy(x) THEN << Sec(DotDynstr, Sht("SHT_STRTAB"), N(2), ad[ix.decoy], Decoy, N(Len(Decoy)), Z, Z, N(1), Z) >> ELSE <<>>)
+  CASE kind = "sym" -> Sec(DotDynsym, Sht("SHT_DYNSYM"), N(2), ad[ix.sym], m.symb, N(Len(m.symb)), N(ix.str), N(1), N(w), N(SymEnt(x)))
+    [] kind = "str" -> Sec(IF HasDecoy(x) THEN DotDstr ELSE DotDynstr, Sht("SHT_STRTAB"), N(2), ad[ix.str], DynStr, N(Len(DynStr)), Z, Z, N(1), Z)
+    [] kind = "hash" -> Sec(DotHash, Sht("SHT_HASH"), N(2), ad[ix.hash], m.hb, N(Len(m.hb)), N(ix.sym), Z, N(4), N(4))
+    [] kind = "gnu" -> Sec(DotGnuHash, Sht("SHT_GNU_HASH"), N(2), ad[ix.gnu], m.gb, N(Len(m.gb)), N(ix.sym), Z, N(w), Z)
+    [] kind = "dyn" -> Sec(DotDynamic, Sht("SHT_DYNAMIC"), N(3), ad[ix.dyn], dyn, N(m.dynlen), N(ix.str), Z, N(w), N(DynEnt(c)))
+    [] kind = "copy" -> Sec(DotData, Sht("SHT_PROGBITS"), N(3), ad[ix.copy], dyn, N(m.dynlen), Z, Z, N(w), Z)
+    [] kind = "decoy" -> Sec(DotDynstr, Sht("SHT_STRTAB"), N(2), ad[ix.decoy], Decoy, N(Len(Decoy)), Z, Z, N(1), Z)
+Sections(x, m, ad, dyn) == LET ord == Order(x) IN [k \in 1..Len(ord) |-> SecOf(x, m, ad, dyn, ord[k])]
 \* the length of .shstrtab (Elf.tla writes it after the user sections)
 ShStrLen(x) == Len(StrTab([Im0 EXCEPT !.secs = Sections(x, [symb |-> <<>>, hb |-> <<>>, gb |-> <<>>, dynlen |-> 0], [k \in 1..SecCount(x) |-> Z], <<>>)]))
 Addresses ==
   /\ phase = "placed"
   /\ LET x == o   ix == Ix(o)   w == Ws(o)
          dend == mem.d0 + mem.dsum + ShStrLen(o)
-         loads == Loads(o, mem.offs[ix.str], dend)
+         loads == Loads(o, mem.offs[2], dend)                  \* two segments: the first table alone in the first one
          ad == [k \in 1..Len(mem.offs) |-> AddrOf(loads, mem.offs[k])]
          P == [strtab |-> ad[ix.str], symtab |-> ad[ix.sym], hash |-> IF HasV(x) THEN ad[ix.hash] ELSE DZero(w),
                gnuhash |-> IF HasG(x) THEN ad[ix.gnu] ELSE DZero(w), decoy |-> IF HasDecoy(x) THEN ad[ix.decoy] ELSE Plus(ad[ix.str], 2),
@@ -431,7 +436,9 @@ Encode ==
          wads == [k \in 1..Len(mem.ad) |-> W(mem.ad[k])]
          im == [Im0 EXCEPT !.cls = x.cls, !.le = x.le, !.machine = x.machine, !.osabi = x.osabi, !.etype = N(3),
                            !.secs = Sections(o, mem, wads, dyn), !.segs = segs]
-         data == mem.symb \o DynStr \o mem.hb \o mem.gb \o dyn \o (IF IsSplit(x) THEN dyn ELSE <<>>) \o (IF HasDecoy(x) THEN Decoy ELSE <<>>) IN
+         ord == Order(o)
+         data == Flat([k \in 1..Len(ord) |-> CASE ord[k] = "sym" -> mem.symb [] ord[k] = "str" -> DynStr [] ord[k] = "hash" -> mem.hb
+                                                [] ord[k] = "gnu" -> mem.gb [] ord[k] \in {"dyn", "copy"} -> dyn [] ord[k] = "decoy" -> Decoy]) IN
      mem' = [f \in DOMAIN mem \cup {"im", "data"} |-> CASE f = "im" -> im [] f = "data" -> data [] OTHER -> mem[f]]
   /\ phase' = "done"
   /\ UNCHANGED <<o, rd>>
